@@ -84,6 +84,16 @@ func genC05(t *rapid.T) c05Case {
 			}
 		}
 	}
+	// scale: hundreds of inert nodes around the real ones (listing size is a surface property too); nodes that can
+	// never be focus nodes (no target class) may be blank nodes, whose labels are local to the document
+	genScale(t, g, 8)
+	if rapid.IntRange(0, 3).Draw(t, "blankNodes") == 0 {
+		for i, n := range g.Nodes {
+			if !n.HasType(classTest) && rapid.Bool().Draw(t, "blank") {
+				n.ID = fmt.Sprintf("_:x%d", i)
+			}
+		}
+	}
 	return c05Case{ProfileText: text, Graph: g, A: genLDOpts(t, len(g.Nodes)), B: genLDOpts(t, len(g.Nodes))}
 }
 
@@ -145,6 +155,12 @@ func decideC05(c c05Case) ev.Verdict {
 		return ev.Violation("c05-verdict-depends-on-serialisation", "two serialisations of one graph (differing in %v) give different results\nA conforms=%v %v\nB conforms=%v %v\nprofile:\n%s\nA: %s\nB: %s", diff, pa.Conforms, pa.Quads(), pb.Conforms, pb.Quads(), c.ProfileText, trunc(da, 1500), trunc(db, 1500))
 	}
 	labels := []string{fmt.Sprintf("dims-differing:%d", minInt(len(diff), 6))}
+	if c.Graph.Bulk > 0 {
+		labels = append(labels, fmt.Sprintf("bulk-nodes:%d", c.Graph.Bulk))
+	}
+	if len(da) > 65536 || len(db) > 65536 {
+		labels = append(labels, "document-over-64KiB")
+	}
 	for _, d := range diff {
 		labels = append(labels, "differs:"+d)
 	}
